@@ -18,7 +18,7 @@ structure Rel (p : PState) : Prop where
   inv : InvP p.s
   wf : WF p.d
   cur : p.d.current = some p.c.manifest
-  edits : ∃ es, lookup p.d.manifests p.c.manifest = some es ∧ walNoOf es = some p.c.w0 ∧
+  edits : ∃ es, lookup p.d.manifests p.c.manifest = some es ∧ walNoOf es = some p.c.manWal ∧
     (∀ q, q ∈ versionOf es ↔ InVersion p.s.levels q)
   tables : ∀ l f, f ∈ lv p.s.levels l → lookup p.d.tables f.num = some f.entries
   walMem : ∃ bs, lookup p.d.wals p.c.wal = some bs ∧ ∀ e, e ∈ batchesFlat bs ↔ e ∈ p.s.mem
@@ -27,8 +27,10 @@ structure Rel (p : PState) : Prop where
       lookup p.d.wals wi = some bs ∧ ∀ e, e ∈ batchesFlat bs ↔ e ∈ im)
   /-- every other WAL on disk is older than what the manifest names (waiting to be removed) or
   empty (created and not yet written: the next WAL during recovery) -/
-  others : ∀ x ∈ p.d.wals, x.1 = p.c.wal ∨ some x.1 = p.c.immWal ∨ x.1 < p.c.w0 ∨ x.2 = []
+  others : ∀ x ∈ p.d.wals, x.1 = p.c.wal ∨ some x.1 = p.c.immWal ∨ x.1 < p.c.manWal ∨ x.2 = []
   walMax : ∀ x ∈ p.d.wals, x.1 ≤ p.c.wal ∨ x.2 = []
+  /-- the manifest never names a WAL newer than the oldest one in use -/
+  manLe : p.c.manWal ≤ p.c.w0
 
 theorem w0_le_wal {p : PState} (h : Rel p) : p.c.w0 ≤ p.c.wal := by
   unfold Ctx.w0
@@ -57,7 +59,7 @@ theorem mem_walEntriesOf (wals : List Wal) (w : Nat) (e : Entry) :
 /-- **the image recovers, and to exactly the entries of the running instance** -/
 theorem rel_recover {p : PState} (h : Rel p) :
     ∃ r es, recover p.d = some r ∧ lookup p.d.manifests p.c.manifest = some es ∧
-      r.version = versionOf es ∧ r.walNo = p.c.w0 ∧ (∀ q, q ∈ r.version ↔ InVersion p.s.levels q) ∧
+      r.version = versionOf es ∧ r.walNo = p.c.manWal ∧ (∀ q, q ∈ r.version ↔ InVersion p.s.levels q) ∧
       ∀ e, e ∈ r.entries ↔ e ∈ allEntries p.s := by
   obtain ⟨es, hes, hw, hv⟩ := h.edits
   have hall : (versionOf es).all (fun f => (lookup p.d.tables f.2).isSome) = true := by
@@ -65,11 +67,11 @@ theorem rel_recover {p : PState} (h : Rel p) :
     intro q hq
     obtain ⟨f, hf, hn⟩ := (hv q).mp hq
     rw [← hn, h.tables q.1 f hf]; rfl
-  refine ⟨{ version := versionOf es, walNo := p.c.w0,
-            entries := tableFlat (lookup p.d.tables) (versionOf es) ++ walEntriesOf p.d.wals p.c.w0 },
+  refine ⟨{ version := versionOf es, walNo := p.c.manWal,
+            entries := tableFlat (lookup p.d.tables) (versionOf es) ++ walEntriesOf p.d.wals p.c.manWal },
           es, ?_, hes, rfl, rfl, hv, ?_⟩
   · rw [recover_eq_some]
-    exact ⟨p.c.manifest, h.cur, (recoverFrom_eq_some _ _ _).mpr ⟨es, p.c.w0, hes, hw, hall, rfl⟩⟩
+    exact ⟨p.c.manifest, h.cur, (recoverFrom_eq_some _ _ _).mpr ⟨es, p.c.manWal, hes, hw, hall, rfl⟩⟩
   · intro e
     simp only [List.mem_append, mem_tableFlat, mem_walEntriesOf, mem_allEntries]
     obtain ⟨bsM, hlM, hmM⟩ := h.walMem
@@ -96,12 +98,14 @@ theorem rel_recover {p : PState} (h : Rel p) :
         · omega
         · rw [h1] at he; simp [batchesFlat] at he
     · rintro (he | he | ⟨j, f, hf, he⟩)
-      · refine Or.inr ⟨(p.c.wal, bsM), mem_of_lookup _ _ _ hlM, w0_le_wal h, (hmM e).mpr he⟩
+      · refine Or.inr ⟨(p.c.wal, bsM), mem_of_lookup _ _ _ hlM, Nat.le_trans h.manLe (w0_le_wal h), (hmM e).mpr he⟩
       · rcases h.walImm with ⟨_, hn⟩ | ⟨wi, im, bs, hwi, him, _, hlI, hmI⟩
         · rw [hn] at he; simp at he
         · rw [him] at he
           refine Or.inr ⟨(wi, bs), mem_of_lookup _ _ _ hlI, ?_, (hmI e).mpr he⟩
-          simp [Ctx.w0, hwi]
+          have := h.manLe
+          simp only [Ctx.w0, hwi, Option.getD_some] at this
+          exact this
       · refine Or.inl ⟨(j, f.num), (hv (j, f.num)).mpr ⟨f, hf, rfl⟩, ?_⟩
         rw [h.tables j f hf]; exact he
 
